@@ -68,13 +68,24 @@ Suffix(n, m, g) ==
   ELSE IF n = 0 THEN <<123, 44>> \o Digits(m) \o <<125>> \o lazy
   ELSE <<123>> \o Digits(n) \o <<44>> \o Digits(m) \o <<125>> \o lazy
 
+\* class text: the escape set of classes.py; a one-character class is printed as that (escaped) character
+ClsEscSet == {92, 94, 91, 93, 45, 47}                                        \* \ ^ [ ] - /
+ClsEsc(c) == IF c \in ClsEscSet THEN <<92, c>> ELSE <<c>>
+RECURSIVE ClsBody(_)
+ClsBody(iv) == IF iv = <<>> THEN <<>>
+               ELSE LET r == Head(iv) IN
+                    (IF r[1] = r[2] THEN ClsEsc(r[1]) ELSE ClsEsc(r[1]) \o <<45>> \o ClsEsc(r[2])) \o ClsBody(Tail(iv))
+ClsText(v) == IF ~v.neg /\ Len(v.iv) = 1 /\ v.iv[1][1] = v.iv[1][2]
+              THEN (LET c == v.iv[1][1] IN IF c \in ClsEscSet THEN <<92, c>> ELSE EscText(<<c>>))
+              ELSE <<91>> \o (IF v.neg THEN <<94>> ELSE <<>>) \o ClsBody(v.iv) \o <<93>>
+
 RECURSIVE Emit(_)
 G(v, ctx) == IF Wraps(v, ctx) THEN <<40, 63, 58>> \o Emit(v) \o <<41>> ELSE Emit(v)
 Emit(v) ==
   CASE v.k = "eps"  -> <<>>
     [] v.k = "lit"  -> EscText(v.s)
     [] v.k = "any"  -> <<46>>
-    [] v.k = "cls"  -> <<91, 93>>                               \* class text is produced by classes.py: not transcribed
+    [] v.k = "cls"  -> ClsText(v)                               \* shape only: order of elements and shorthands (\d, \w) are classes.py's business
     [] v.k = "cat"  -> G(v.a, "concat") \o G(v.b, "concat")
     [] v.k = "alt"  -> Emit(v.a) \o <<124>> \o Emit(v.b)
     [] v.k = "rep"  -> G(v.a, "quantify") \o Suffix(v.n, v.m, v.g)
